@@ -770,7 +770,12 @@ func (e UnaryLogic) String() string {
 		s := []string{e.Operator.String(), e.Operand.String()}
 		return joinWithSpace(s)
 	}
-	return e.Operator.String() + e.Operand.String()
+	operand := e.Operand.String()
+	if 0 < len(operand) && operand[0] == '!' {
+		// "!!" is not an operator: keep two negations apart
+		return e.Operator.String() + " " + operand
+	}
+	return e.Operator.String() + operand
 }
 
 type Concat struct {
@@ -794,6 +799,22 @@ type Function struct {
 	For  Token
 }
 
+// functionNameString prints a function name; a name that is not a plain word was written as a quoted
+// identifier and has to be quoted again to be parsed.
+func functionNameString(name string) string {
+	plain := 0 < len(name)
+	for _, r := range name {
+		if !(r == '_' || ('0' <= r && r <= '9') || ('A' <= r && r <= 'Z') || ('a' <= r && r <= 'z') || 0x7f < r) {
+			plain = false
+			break
+		}
+	}
+	if plain {
+		return strings.ToUpper(name)
+	}
+	return option.QuoteIdentifier(name)
+}
+
 func (e Function) String() string {
 	var args string
 	if strings.EqualFold(e.Name, keyword(SUBSTRING)) && !e.From.IsEmpty() {
@@ -806,7 +827,7 @@ func (e Function) String() string {
 	} else {
 		args = listQueryExpressions(e.Args)
 	}
-	return strings.ToUpper(e.Name) + "(" + args + ")"
+	return functionNameString(e.Name) + "(" + args + ")"
 }
 
 type AggregateFunction struct {
